@@ -527,6 +527,21 @@ def raw_serialiser(prog, chk):
                 pieces_ok = len(got_) >= len(want_) and all(seg_equal(st, got_[i_], want_[i_]) is True for i_ in range(len(want_))) \
                     and all(x[0] == "zero" for x in got_[len(want_):])
                 soft = pieces_ok
+            if not ok and not soft:
+                # positive evidence of a wrong layout: a known piece that provably differs, or padding that is not zero
+                bad_ev = False
+                if segs is not None and isinstance(ty, Num) and isinstance(ln, Num) and isinstance(vb, Seq):
+                    V2_ = content_segments(st, vb) or []
+                    want2_ = [("be", 2, ty.e), ("be", 2, ln.e)] + V2_
+                    got2_ = list(segs)
+                    for i_ in range(min(len(got2_), len(want2_))):
+                        if seg_equal(st, got2_[i_], want2_[i_]) is False:
+                            bad_ev = True
+                    if all(seg_equal(st, got2_[i_], want2_[i_]) is True for i_ in range(min(len(got2_), len(want2_)))) and len(got2_) >= len(want2_):
+                        bad_ev = bad_ev or any(x[0] in ("be", "le", "win") and not (x[0] == "be" and x[2] is not None and st.sys.const_value(x[2]) == 0) for x in got2_[len(want2_):])
+                if not bad_ev:
+                    soft = True
+                    why = "not decided: " + why
             if soft:
                 chk.analysed.setdefault("raw_serialiser_undecided", []).append(why[:200])
                 ok = True
